@@ -92,6 +92,10 @@ def _stmt(st, live, out):
                     for a, b in zip(t.elts, st.value.elts):
                         if isinstance(a, ast.Name):
                             p.env[a.id] = subst(b, p.env)
+                elif isinstance(t, (ast.Tuple, ast.List)) and all(isinstance(a, ast.Name) for a in t.elts):
+                    # unpacking of an opaque value: component i
+                    for i, a in enumerate(t.elts):
+                        p.env[a.id] = ast.Subscript(value=_fcopy(v), slice=ast.Constant(value=i), ctx=ast.Load())
                 else:
                     for x in ast.walk(t):
                         if isinstance(x, ast.Name) and isinstance(x.ctx, ast.Store):
@@ -138,6 +142,22 @@ def _stmt(st, live, out):
         if st.finalbody:
             res = _block(st.finalbody, res, out)
         return res
+    if isinstance(st, (ast.For, ast.While)) and not any(isinstance(x, (ast.Return, ast.Raise)) for b in st.body for x in ast.walk(b)):
+        # a loop that cannot leave the function: what it calls is recorded (as possibly executed), what it assigns becomes unknown
+        for p in live:
+            for b in st.body:
+                for x in ast.walk(b):
+                    if isinstance(x, ast.Expr):
+                        p.calls.append(subst(x.value, p.env))
+                    if isinstance(x, ast.Name) and isinstance(x.ctx, ast.Store):
+                        p.env.pop(x.id, None)
+            if isinstance(st, ast.For):
+                for x in ast.walk(st.target):
+                    if isinstance(x, ast.Name):
+                        p.env.pop(x.id, None)
+        return live
+    if isinstance(st, ast.With):
+        return _block(st.body, live, out)
     raise _Unsupported()
 
 
